@@ -77,6 +77,11 @@ def main(argv):
         # replay the witness of every known finding of a property; print KNOWN-FINDING while it still fails
         from . import oracles
         pid = argv[1]
+        if pid in ("C14", "C15", "C16"):
+            from . import concstream
+            for ln in concstream.probe(pid):
+                print(ln)
+            return 0
         for kf in json.load(open(core.VERIF + "/known_findings.json")):
             if kf.get("status") != "known" or kf["property"] != pid or "witness_ops" not in kf:
                 continue
